@@ -101,6 +101,7 @@ func isIdentifierPart(chr rune) bool {
 	return chr == '$' || chr == '_' || chr == '\\' ||
 		'a' <= chr && chr <= 'z' || 'A' <= chr && chr <= 'Z' ||
 		'0' <= chr && chr <= '9' ||
+		chr == '\u200c' || chr == '\u200d' || // <ZWNJ>, <ZWJ>
 		chr >= utf8.RuneSelf && unicodeIDContinue(chr)
 }
 
